@@ -97,12 +97,15 @@ def c10_repl_stage(seed, tier, rundir, log):
                 continue
             _count(res, "repl_runtime_sessions_checked")
             continue
+        # was the line really rejected? (an opener followed by its own closer is a valid program): ask a session that ends
+        # right after it, whose error stream then holds nothing but that line's report
+        rc0, out0, err0 = _session(xeh, hist + [r], cwd)
+        if not err0.replace("CTRL-D", "").strip():
+            _count(res, "repl_rejected_line_was_accepted")
+            continue
         twin = hist + tail
         rc2, out2, err2 = _session(xeh, twin, cwd)
         b1, b2 = _blocks(out), _blocks(out2)
-        if "unknown word" not in err and "error" not in err.lower() and "balance" not in err and "expect" not in err and not err.strip().replace("CTRL-D", ""):
-            _count(res, "repl_rejected_line_was_accepted")
-            continue
         _count(res, "repl_twin_sessions_compared")
         if b1 != b2:
             k = next((j for j in range(min(len(b1), len(b2))) if b1[j] != b2[j]), min(len(b1), len(b2)))
